@@ -183,7 +183,17 @@ def name_menu():
               "right", "expression", "compute_early", "_private", "variable_name", "variable_names", "cls", "whatever",
               "multiplier", "accumulator", "exponent", "coordinates", "_coordinates"]
     names += [n for n in A.library_identifiers() if n not in names]   # every identifier the library's own code uses
+    # Python's reserved words with the customary escapes, and every string of length <= 3 over a small alphabet of
+    # word and non-word characters (exhaustive: 9 + 81 + 729 strings, classified by the reference rule)
+    for k in keyword.kwlist + keyword.softkwlist:
+        names += [k + "_", "_" + k, k + "__", k.upper() if k.upper() != k else k.lower()]
+    alphabet = ["a", "_", "1", "A", "\u00e9", " ", "-", "\n", "."]
+    small = ["".join(w) for k in (1, 2, 3) for w in itertools.product(alphabet, repeat=k)]
+    names += [s for s in small if ref_name_ok(s) and s not in names]
+    names = list(dict.fromkeys(names))
     bad = ["\u338f", "x\u2122", "\u2116", "e\u0301", "\u00bd\u2044", "x\u00b7y", "\u2460\u20dd", "", " ", "a b", "a-b", "a\n", "\n", "é!", "x.y", "x+y", "a,b", "x=1", "(x)", "x ", " x", "a\tb", "​", "a b", "$x", "x'"]
+    bad += [s for s in small if not ref_name_ok(s) and s not in bad]
+    bad += ["x_ y", "a_b-c", "rate_%", "x_\n", " _x", "_ _", "a_\u00b7", "_-", "x_y z", "a__ b"]
     foreign = [3, None, 2.5, ("x",), ["x"], b"x"]
     return names, bad, foreign
 
